@@ -2,3 +2,7 @@ import WsProofs.Props.C20
 import WsProofs.Props.C19
 import WsProofs.Props.C18
 import WsProofs.Props.C08
+import WsProofs.Props.C06
+import WsProofs.Props.C11
+import WsProofs.Props.C12
+import WsProofs.Props.C14
